@@ -1394,7 +1394,7 @@ def run(ctx):
         cases.append((gen_case(ctx.rng, big=(ctx.tier == 'thorough' and k % 4 == 0)), 'random'))
     for k in range(ctx.scale(300, 2000)):
         cases.append((gen_float_case(ctx.rng), 'float-shift'))
-    for k in range(ctx.scale(350, 2000)):
+    for k in range(ctx.scale(350, 1200)):
         cases.append((gen_share_case(ctx.rng), 'coords-sharing'))
     all_lines = []
     plan = []
